@@ -18,6 +18,7 @@ a `return` inside a loop/try/with when the call is not in tail position.
 """
 from __future__ import annotations
 
+from .core import acopy
 import ast
 import copy
 from pathlib import Path
@@ -190,7 +191,7 @@ class _Subst(ast.NodeTransformer):
 
     def visit_Name(self, node: ast.Name):
         if node.id in self.mapping and isinstance(node.ctx, ast.Load):
-            new = copy.deepcopy(self.mapping[node.id])
+            new = acopy(self.mapping[node.id])
             return ast.copy_location(new, node)
         if node.id in self.rename:
             return ast.copy_location(ast.Name(id=self.rename[node.id], ctx=node.ctx), node)
@@ -227,7 +228,7 @@ def _lower_returns(stmts: List[ast.stmt], emit, k: Optional[List[ast.stmt]] = No
             rest = stmts[i + 1:]
             kk, kr = _lower_returns(rest, emit, k)
             b, br = _lower_returns(s.body, emit, kk)
-            o, orr = _lower_returns(s.orelse, emit, copy.deepcopy(kk) if s.orelse or True else kk)
+            o, orr = _lower_returns(s.orelse, emit, acopy(kk) if s.orelse or True else kk)
             new = ast.If(test=s.test, body=b or [ast.Pass()], orelse=o)
             out.append(ast.copy_location(new, s))
             return out, (br or False) and (orr or False) if False else _never_falls(out)
@@ -388,7 +389,7 @@ def thread_temporary(repl: List[ast.stmt], t: str, rest: List[ast.stmt], caller:
     for (blk, idx), v in zip(leaves, vals):
         node = blk[idx]
         if v is None:
-            blk[idx:idx + 1] = copy.deepcopy(none_body)
+            blk[idx:idx + 1] = acopy(none_body)
             continue
         if single is not None:
             tgt = single.targets[0].id
@@ -408,7 +409,7 @@ def split_parallel(names: List[str], values: List[ast.AST], target: ast.AST, val
     indep = all(nm not in _names(e2) for i, (nm, _) in enumerate(pairs) for j, (_, e2) in enumerate(pairs) if j > i)
     if indep:
         return [ast.copy_location(ast.Assign(targets=[ast.Name(id=nm, ctx=ast.Store())], value=e, lineno=at.lineno), at) for nm, e in pairs]
-    return [ast.copy_location(ast.Assign(targets=[copy.deepcopy(target)], value=value, lineno=at.lineno), at)]
+    return [ast.copy_location(ast.Assign(targets=[acopy(target)], value=value, lineno=at.lineno), at)]
 
 
 class Inliner:
@@ -514,7 +515,7 @@ class Inliner:
         body = [s for s in fn.body]
         if body and isinstance(body[0], ast.Expr) and isinstance(body[0].value, ast.Constant) and isinstance(body[0].value.value, str):
             body = body[1:]
-        body = copy.deepcopy(body)
+        body = acopy(body)
         assigned = _assigned(body)
         if any(isinstance(n, (ast.Global, ast.Nonlocal)) for s in body for n in ast.walk(s)):
             raise Unsupported("global/nonlocal")
@@ -537,7 +538,7 @@ class Inliner:
                 new = p if p not in caller_names else self._fresh(p, caller_names)
                 if new != p:
                     rename[p] = new
-                pre.append(ast.copy_location(ast.Assign(targets=[ast.Name(id=new, ctx=ast.Store())], value=copy.deepcopy(v), lineno=stmt.lineno), stmt))
+                pre.append(ast.copy_location(ast.Assign(targets=[ast.Name(id=new, ctx=ast.Store())], value=acopy(v), lineno=stmt.lineno), stmt))
         for loc in sorted(assigned - set(binding)):
             if loc in caller_names and loc not in target_names and loc not in rename.values() \
                     and not dead_after(loc, getattr(self, "_frames", [([], None, False)])):
@@ -577,7 +578,7 @@ class Inliner:
                         and len(val.elts) == len(stmt.targets[0].elts) and all(isinstance(e, ast.Name) for e in stmt.targets[0].elts) \
                         and not any(isinstance(e, ast.Starred) for e in val.elts):
                     return split_parallel([e.id for e in stmt.targets[0].elts], list(val.elts), stmt.targets[0], val, node) or [ast.copy_location(ast.Pass(), node)]
-                new = copy.deepcopy(stmt)
+                new = acopy(stmt)
                 new.value = val
                 return [ast.copy_location(new, node)]
         if not self._always_returns(body):
@@ -727,7 +728,7 @@ class Inliner:
                 if not all(_simple(v) for v in binding.values()):
                     return node
                 body = [b for b in c[0].body if isinstance(b, ast.Return)]
-                expr = copy.deepcopy(body[0].value)
+                expr = acopy(body[0].value)
                 if any(isinstance(n, (ast.NamedExpr, ast.Lambda, ast.ListComp, ast.SetComp, ast.DictComp, ast.GeneratorExp)) for n in ast.walk(expr)):
                     # bound names inside would need renaming; keep it simple
                     if _assigned(expr) & set().union(*[_names(v) for v in binding.values()] or [set()]):
@@ -875,7 +876,7 @@ def propagate_extra_constants(modname: str, tree: ast.Module) -> List[str]:
             if isinstance(f, ast.Attribute) and isinstance(f.value, ast.Name) and f.value.id in cands and not self.shadowed(f.value.id) \
                     and isinstance(cands[f.value.id], ast.Call) and f.attr in RE_METHODS and self.shadow:
                 comp = cands[f.value.id]
-                pat = copy.deepcopy(comp.args[0])
+                pat = acopy(comp.args[0])
                 flags = comp.args[1] if len(comp.args) > 1 else next((k.value for k in comp.keywords if k.arg == "flags"), None)
                 # pattern methods take pos/endpos for some calls: only the plain forms are rewritten
                 plain = {"sub": (2, 3), "subn": (2, 3), "finditer": (1, 1), "findall": (1, 1), "match": (1, 1), "search": (1, 1), "fullmatch": (1, 1), "split": (1, 2)}
@@ -885,7 +886,7 @@ def propagate_extra_constants(modname: str, tree: ast.Module) -> List[str]:
                     new = ast.Call(func=ast.copy_location(ast.Attribute(value=ast.copy_location(ast.Name(id="re", ctx=ast.Load()), f), attr=f.attr, ctx=ast.Load()), f),
                                    args=[ast.copy_location(pat, f.value)] + node.args, keywords=list(node.keywords))
                     if flags is not None:
-                        new.keywords.append(ast.keyword(arg="flags", value=copy.deepcopy(flags)))
+                        new.keywords.append(ast.keyword(arg="flags", value=acopy(flags)))
                     log.append(f"{modname}: {f.value.id}.{f.attr}(..) -> re.{f.attr}(<literal>, ..) at line {node.lineno}")
                     return ast.copy_location(new, node)
             return self.generic_visit(node)
@@ -893,7 +894,7 @@ def propagate_extra_constants(modname: str, tree: ast.Module) -> List[str]:
         def visit_Name(self, node: ast.Name):
             if isinstance(node.ctx, ast.Load) and node.id in cands and not isinstance(cands[node.id], ast.Call) and self.shadow and not self.shadowed(node.id):
                 log.append(f"{modname}: constant {node.id} propagated at line {node.lineno}")
-                return ast.copy_location(copy.deepcopy(cands[node.id]), node)
+                return ast.copy_location(acopy(cands[node.id]), node)
             return node
 
     T().visit(tree)
